@@ -690,6 +690,12 @@ func Emit(p *ps.Program, pkg, fnsPkg string) *Files {
 		e.w("\nvar _ = len(\"%s\")\n", strings.Repeat("x", 70000))
 	}
 
+	// ----- a raw string literal whose lines look like build constraints (a file template, say), after
+	// the directive in every ninth program: text outside the directive is copied, not interpreted
+	if p.PID%9 == 4 {
+		e.w("\nconst p%dScaffold = `package scaffold\n//go:build linux && !ignore\n// +build linux,!ignore\n\n\t//go:build cff\n`\n\nvar _ = len(p%dScaffold)\n", p.PID, p.PID)
+	}
+
 	// ----- assemble main file; line numbers shift by the header length.
 	body := e.body.String()
 	var hdr strings.Builder
